@@ -392,6 +392,9 @@ class MinMaxAggregator:
             if analytics.equal_variable_bound or len(analytics.bounds) != 1:
                 log.info(f"Cannot translate {loc2str(agg.location)} as only a single bound is supported under negation.")
                 return [rule]
+        if {PREV, NEXT}.intersection(collect_ast(rule, "Variable")):
+            log.info(f"Cannot translate {loc2str(agg.location)} as it uses the variable names of the chain rules.")
+            return [rule]
         number_of_aggregate = 0
         assert len(agg.atom.elements) == 1
         elem = agg.atom.elements[0]
@@ -672,6 +675,8 @@ class MinMaxAggregator:
         if any(var.name == varname for cond in rest_cond for var in collect_ast(cond, "Variable")):
             log.info(f"Cannot use chaining in {loc2str(stm.location)} as the result is used in another condition.")
             return [stm]
+        if {PREV, NEXT}.intersection(collect_ast(stm, "Variable")):
+            return [stm]  # the variable names of the chain elements are taken
         if not self._result_only_weight(oldmax, minmaxpred[2], varname, term_tuple[1:]):
             log.info(f"Cannot use chaining in {loc2str(stm.location)} as the weight is not exactly the result.")
             return [stm]
@@ -765,6 +770,8 @@ class MinMaxAggregator:
             return [elem]
         if not self._result_only_weight(old_max, minmaxpred[2], varname, term_tuple[1:]):
             return [elem]
+        if {PREV, NEXT}.intersection(collect_ast(elem, "Variable")):
+            return [elem]  # the variable names of the chain elements are taken
 
         # check if all Variables from old predicate are used in the tuple identifier
         # to make a unique semantics
